@@ -337,6 +337,11 @@ func c05Property(t *rapid.T) {
 		// references that do not resolve). Plain documents must parse, otherwise nothing here would be exercised.
 		// (also a stricter validation of values — hash contents, relationship names — is the parser's business; that
 		// documents are accepted at all is seen in the evidence: non-trivial cases need accepted documents)
+		// But "parsing with auto-detection equals parsing with the format stated explicitly": a document that parses
+		// with its format stated must parse with auto-detection too.
+		if dx, xerr := parseAs(base, g.Format); xerr == nil && dx != nil {
+			t.Fatalf("auto-detection rejects (%v) a %s document that parses with the format stated explicitly (%s)\n%s", err, g.Kind, g.Format, trunc(string(base), 2000))
+		}
 		hx.Class("generated_document_rejected")
 		if !distinctDeclared(g.Declared) || !g.Resolving {
 			hx.Class("generated_document_rejected(duplicate ids or unresolved references)")
